@@ -105,6 +105,8 @@ pub fn c11(s: &mut Sess, rng: &mut Rng, n: u64) {
             }
         }
         let before = s.op("dump");
+        // a clone of the handle comes and goes (a worker thread that finishes): the directory stays locked
+        if rng.chance(1, 2) { s.op("clonedrop"); s.out.count("c11.clone-dropped"); }
         // second handle in the same process
         let r = s.op("open2");
         if r != "err alreadyOpened" { s.out.oracle_fail(format!("C11: a second handle was granted: {r}")); }
@@ -364,15 +366,88 @@ pub fn c08(s: &mut Sess, rng: &mut Rng, n: u64) {
     }
 }
 
+/// C10, oracle-only probe on the real code: a log with TWO uncheckpointed segments (the roll-over
+/// checkpoint's snapshot write failed, so the sealed segment was not pruned), one byte changed in
+/// the LAST record of the sealed, non-final segment: open must fail or show exactly the state
+/// before that record — in particular it must not go on to the later segment.
+pub fn multi_segment_damage_probe(s: &mut Sess, rng: &mut Rng) {
+    let cfg = "cfg kind=bytes n=3 sync=1 pre=0".to_string();
+    let keys = [b"a", b"b", b"c", b"d"];
+    let mut lines = vec![cfg.clone(), "open".to_string()];
+    for k in &keys[..3] { lines.push(format!("put {} ={}", hx(*k), hx(&[b'p' + rng.below(5) as u8; 4]))); }
+    lines.push("blockindextmp".into());
+    lines.push(format!("put {} ={}", hx(keys[3]), hx(b"late")));
+    lines.push("unblockindextmp".into());
+    lines.push("iter".into());
+    lines.push("close".into());
+    let ctx = lines.join(" ; ");
+    let r = s.probe_real(true, &lines);
+    s.out.cases += 1;
+    if r.iter().any(|x| x.is_none()) { s.out.oracle_fail(format!("C10 probe: the worker died [{ctx}]")); return; }
+    let dir = s.work.join("probe");
+    let (Ok(seg0), Ok(_seg1)) = (std::fs::read(dir.join("0_index.wal")), std::fs::read(dir.join("1_index.wal"))) else {
+        // the failed snapshot did not leave two segments behind (the layout this probe is about): nothing to judge
+        s.out.count("c10probe.no-two-segments"); return;
+    };
+    // records of segment 0
+    let mut recs: Vec<(usize, usize, u64)> = Vec::new(); // (start, end, version)
+    let mut off = 0usize;
+    while off + 44 <= seg0.len() {
+        let ver = u64::from_le_bytes(seg0[off..off + 8].try_into().unwrap());
+        let len = u32::from_le_bytes(seg0[off + 40..off + 44].try_into().unwrap()) as usize;
+        if ver == 0 || len == 0 || off + 44 + len > seg0.len() { break; }
+        recs.push((off, off + 44 + len, ver));
+        off += 44 + len;
+    }
+    let Some(&(start, end, ver)) = recs.last() else { s.out.count("c10probe.no-records"); return; };
+    // the state before that record: the first ver-1 puts
+    let iter_all = r[r.len() - 2].clone().unwrap_or_default();
+    let before: Vec<&str> = iter_all.split(';').filter(|e| {
+        let k = e.split(':').next().unwrap_or("");
+        keys[..(ver as usize - 1).min(3)].iter().any(|x| hx(*x) == k)
+    }).collect();
+    let want = if before.is_empty() { "_".to_string() } else { before.join(";") };
+    for _ in 0..6 {
+        let o = start + 8 + rng.below((end - start - 8) as u64) as usize;
+        if (start + 40..start + 44).contains(&o) { continue; } // the length field is not payload/checksum
+        let mut b = seg0.clone();
+        b[o] ^= 1u8 << rng.below(8);
+        std::fs::write(dir.join("0_index.wal"), &b).expect("damage");
+        let r2 = s.probe_real(false, &[cfg.clone(), "open".into(), "iter".into(), "close".into()]);
+        match (r2.get(1).cloned().flatten(), r2.get(2).cloned().flatten()) {
+            (Some(o1), Some(it)) if o1.starts_with("ok") => {
+                if it != want { s.out.oracle_fail(format!("C10: two uncheckpointed segments, byte {o} of the last record (version {ver}) of the sealed segment 0 changed: open succeeded with `{it}`; the state after the longest undamaged prefix is `{want}` [{ctx}]")); }
+                s.out.count("c10probe.accepted-as-prefix");
+            }
+            (Some(o1), _) if o1.starts_with("err") => s.out.count("c10probe.rejected"),
+            other => s.out.oracle_fail(format!("C10 probe: open on the damaged two-segment log → {other:?} [{ctx}]")),
+        }
+        std::fs::write(dir.join("0_index.wal"), &seg0).expect("restore");
+    }
+    s.out.count("c10probe.two-uncheckpointed-segments");
+}
+
 /// C10 at log level: real stores (snapshot + several segments), every/sampled truncation offset
 /// and single-byte change in the checksum/payload of every UNCHECKPOINTED record, through Cas::open.
 pub fn c10log(s: &mut Sess, rng: &mut Rng, n: u64, thorough: bool) {
-    for _ in 0..n {
+    for i in 0..n {
+        if i % 10 == 3 { multi_segment_damage_probe(s, rng); }
         let n_wal = *rng.pick(&[2u64, 3, 5, 10_000]);
         s.begin_case(&format!("cfg kind=bytes n={n_wal} sync=1 pre=0"));
         if !s.op("open").starts_with("ok") { continue; }
         let mut states: Vec<String> = vec![s.op("iter")];
-        let mut step = |s: &mut Sess, l: String, states: &mut Vec<String>| { s.op(&l); states.push(s.op("iter")); };
+        // the state after the operations with versions < v, for every v ("the state after the longest
+        // undamaged prefix" of a log whose first damaged record has version v)
+        let mut at: std::collections::BTreeMap<u64, String> = Default::default();
+        let next_of = |s: &mut Sess| -> u64 { s.op("mem").split(' ').find_map(|f| f.strip_prefix("next=")).and_then(|x| x.parse().ok()).unwrap_or(0) };
+        at.insert(next_of(s), states[0].clone());
+        let mut step = |s: &mut Sess, l: String, states: &mut Vec<String>| {
+            s.op(&l);
+            let it = s.op("iter");
+            let nv = s.op("mem").split(' ').find_map(|f| f.strip_prefix("next=")).and_then(|x| x.parse::<u64>().ok()).unwrap_or(0);
+            at.insert(nv, it.clone());
+            states.push(it);
+        };
         for i in 0..rng.range(1, 4) { step(s, format!("put {} ={}", hx(&[b'a' + (i % 3) as u8]), hx(&[b'x' + rng.below(3) as u8; 3])), &mut states); }
         // make a snapshot exist (explicit checkpoint, or restart which checkpoints after replay) — or not
         match rng.below(3) { 0 => { s.op("checkpoint"); } 1 => { s.op("close"); s.op("open"); } _ => {} }
@@ -396,24 +471,32 @@ pub fn c10log(s: &mut Sess, rng: &mut Rng, n: u64, thorough: bool) {
             }
         }
         segs.sort();
-        let mut targets: Vec<(u64, usize)> = Vec::new(); // (segment, byte offset) inside checksum/payload of uncheckpointed records
+        let mut targets: Vec<(u64, usize, u64)> = Vec::new(); // (segment, byte offset, version) inside checksum/payload of uncheckpointed records
+        let mut recs: Vec<(u64, usize, u64)> = Vec::new();    // (segment, end offset, version) of every complete record
         for (id, bytes) in &segs {
             let mut off = 0usize;
             while off + 44 <= bytes.len() {
                 let ver = u64::from_le_bytes(bytes[off..off + 8].try_into().unwrap());
                 let len = u32::from_le_bytes(bytes[off + 40..off + 44].try_into().unwrap()) as usize;
                 if ver == 0 || len == 0 || off + 44 + len > bytes.len() { break; }
-                if ver > snap_ver { for o in off + 8..off + 40 { targets.push((*id, o)); } for o in off + 44..off + 44 + len { targets.push((*id, o)); } }
+                if ver > snap_ver { for o in off + 8..off + 40 { targets.push((*id, o, ver)); } for o in off + 44..off + 44 + len { targets.push((*id, o, ver)); } }
                 off += 44 + len;
+                recs.push((*id, off, ver));
             }
         }
         s.out.add("c10log.damageable-bytes", targets.len() as u64);
-        let picks: Vec<(u64, usize)> = if thorough || targets.len() <= 24 { targets.clone() } else { (0..24).map(|_| targets[rng.below(targets.len() as u64) as usize]).collect() };
-        let mut judge = |s: &mut Sess, what: String| {
+        let picks: Vec<(u64, usize, u64)> = if thorough || targets.len() <= 24 { targets.clone() } else { (0..24).map(|_| targets[rng.below(targets.len() as u64) as usize]).collect() };
+        // `first_bad` = version of the first record that is damaged or missing: a successful open
+        // must show EXACTLY the state after the operations below that version
+        let mut judge = |s: &mut Sess, what: String, first_bad: u64| {
             let r = s.op("open");
             if r.starts_with("ok") {
                 let got = s.op("iter");
-                if !states.contains(&got) { s.out.oracle_fail(format!("C10: {what}: open succeeded with `{got}`, which is not the state after any prefix of the logged operations")); }
+                match at.get(&first_bad) {
+                    Some(want) if *want != got => s.out.oracle_fail(format!("C10: {what}: open succeeded with `{got}`; the state after the longest undamaged prefix (operations below version {first_bad}) is `{want}`")),
+                    Some(_) => {}
+                    None => if !states.contains(&got) { s.out.oracle_fail(format!("C10: {what}: open succeeded with `{got}`, which is not the state after any prefix of the logged operations")); }
+                }
                 s.out.count("c10log.accepted-as-prefix");
                 s.op("close");
             } else if r.starts_with("err") { s.out.count("c10log.rejected"); }
@@ -421,9 +504,9 @@ pub fn c10log(s: &mut Sess, rng: &mut Rng, n: u64, thorough: bool) {
             s.op("tracedrop");
             s.op("restore");
         };
-        for (id, off) in picks {
+        for (id, off, ver) in picks {
             s.op(&format!("damage seg:{id} {off} {}", 1u8 << rng.below(8)));
-            judge(s, format!("byte {off} of segment {id} changed"));
+            judge(s, format!("byte {off} of segment {id} (record of version {ver}) changed"), ver);
         }
         // truncation of the log at an offset of some segment (later segments absent)
         for _ in 0..(if thorough { 40 } else { 8 }) {
@@ -431,8 +514,10 @@ pub fn c10log(s: &mut Sess, rng: &mut Rng, n: u64, thorough: bool) {
             let (id, bytes) = &segs[rng.below(segs.len() as u64) as usize];
             if bytes.is_empty() { continue; }
             let cut = rng.below(bytes.len() as u64);
+            // the last record that is still complete: in an earlier segment, or in this one before the cut
+            let last_ok = recs.iter().filter(|(i, end, _)| *i < *id || (*i == *id && *end as u64 <= cut)).map(|r| r.2).max().unwrap_or(0).max(snap_ver);
             s.op(&format!("truncseg {id} {cut}"));
-            judge(s, format!("log cut at byte {cut} of segment {id}"));
+            judge(s, format!("log cut at byte {cut} of segment {id}"), last_ok + 1);
         }
     }
 }
